@@ -49,6 +49,7 @@ func (extLookup) Get(s string) (reflect.Value, error) {
 	}
 	return env.NilValue, errors.New("ext: unknown value")
 }
+
 // extTypes: the types the external lookup knows; one of them under the name of
 // a built-in type ("built-in type names last" must hold on the root as well)
 var extTypes = map[string]reflect.Type{extName: tFloat64, "int64": tString}
